@@ -235,7 +235,7 @@ def main(argv=None):
         shutil.rmtree(os.path.join(REPLAY_DIR, a.pid), ignore_errors=True)
         run = Run(a.pid, a.tier, drv)
         rule = drv.run(run)
-        return run.finish(rule or getattr(drv, "RULE", ""))
+        return run.finish(rule or getattr(drv, "RULE", ""), getattr(drv, "LEVEL", "model_checking"))
     except HarnessFault as e:
         print(f"HARNESS-FAULT property={a.pid}: {e}", file=sys.stderr)
         return 2
